@@ -491,6 +491,38 @@ func runC14(c *Ctx) {
 	c.CheckAt("C14.R5", "delivery layer: stores into non-literal Publication values reviewed", "client*.go hub.go", cnt >= 2, fmt.Sprintf("%d stores examined", cnt))
 }
 
+// keyStateLookups: the map lookups a *keyedKeyState value can come from (through extracts, phis and
+// local cells).
+func keyStateLookups(v ssa.Value, depth int, seen map[ssa.Value]bool) []*ssa.Lookup {
+	if v == nil || seen[v] || depth > 10 {
+		return nil
+	}
+	seen[v] = true
+	switch x := v.(type) {
+	case *ssa.Lookup:
+		return []*ssa.Lookup{x}
+	case *ssa.Extract:
+		return keyStateLookups(x.Tuple, depth+1, seen)
+	case *ssa.Phi:
+		var out []*ssa.Lookup
+		for _, e := range x.Edges {
+			out = append(out, keyStateLookups(e, depth+1, seen)...)
+		}
+		return out
+	case *ssa.UnOp:
+		if al, ok := x.X.(*ssa.Alloc); ok {
+			var out []*ssa.Lookup
+			for _, r := range *al.Referrers() {
+				if st, ok := r.(*ssa.Store); ok && st.Addr == al {
+					out = append(out, keyStateLookups(st.Val, depth+1, seen)...)
+				}
+			}
+			return out
+		}
+	}
+	return nil
+}
+
 func runC25(c *Ctx) {
 	w := c.W
 	li := w.Locks()
@@ -524,6 +556,18 @@ func runC25(c *Ctx) {
 						return ok && !g.Pol && b.Op == token.NEQ && isNilConst(b.Y) && strings.Contains(D(b.X), "writeEncodedPushData(")
 					})
 					c.Check("C25.R1", st, "key "+fld+" recorded only after a successful enqueue, under c.mu", after && okErr && li.HeldAt(st).Holds("Client.mu", true), "recording a version that was not delivered makes the connection skip it forever")
+					// the per-key state object that is updated was looked up in this same critical section:
+					// untrack / revoke / re-track replace or delete the map entry under c.mu, and only a fresh
+					// lookup sees that
+					fa := st.Addr.(*ssa.FieldAddr)
+					origins := keyStateLookups(fa.X, 0, map[ssa.Value]bool{})
+					fresh := len(origins) > 0
+					for _, lk := range origins {
+						if !Reaches(lk, st) || unlockBetween(kw, lk, st, "Client.mu") != nil {
+							fresh = false
+						}
+					}
+					c.Check("C25.R1", st, "key "+fld+" written into the state object looked up in the same critical section", fresh, "a state pointer resolved before c.mu was released may belong to a key that was untracked, revoked or re-tracked meanwhile: the update is pushed after untrack, or advances an orphaned state instead of the live one")
 				}
 			}
 		}
